@@ -25,7 +25,7 @@ func runC18(c *Ctx, r *Report) {
 		{pkg: "modules/l4openvpn", typ: "MessageCrypt2", parse: "FromBytes", ser: "ToBytes", minC: "MessageCrypt2BytesMin", maxC: "MessageCrypt2BytesMax"},
 		{pkg: "modules/l4openvpn", typ: "WrappedKey", parse: "FromBytes", ser: "ToBytes", minC: "WrappedKeyBytesMin", maxC: "WrappedKeyBytesMax"},
 		{pkg: "modules/l4wireguard", typ: "MessageInitiation", parse: "FromBytes", ser: "ToBytes", minC: "MessageInitiationBytesTotal", maxC: "MessageInitiationBytesTotal", fixed: true},
-		{pkg: "modules/l4wireguard", typ: "MessageTransport", parse: "FromBytes", ser: "ToBytes", minC: "16", maxC: "", extraLens: []int64{32, 33}},
+		{pkg: "modules/l4wireguard", typ: "MessageTransport", parse: "FromBytes", ser: "ToBytes", minC: "MessageTransportBytesMin", maxC: "", extraLens: []int64{48, 49}},
 		{pkg: "modules/l4rdp", typ: "TPKTHeader", parse: "FromBytes", ser: "ToBytes", minC: "TPKTHeaderBytesTotal", maxC: "TPKTHeaderBytesTotal", fixed: true},
 		{pkg: "modules/l4rdp", typ: "X224Crq", parse: "FromBytes", ser: "ToBytes", minC: "X224CrqBytesTotal", maxC: "X224CrqBytesTotal", fixed: true},
 		{pkg: "modules/l4rdp", typ: "RDPNegReq", parse: "FromBytes", ser: "ToBytes", minC: "RDPNegReqBytesTotal", maxC: "RDPNegReqBytesTotal", fixed: true},
@@ -41,6 +41,7 @@ func runC18(c *Ctx, r *Report) {
 	c18Chunks(c, r, "C18.R6")
 	c18NarrowLen(c, r, "C18.R7")
 	c14TablesFor(c, r, "C18.R8", "openvpn") // parsers reject inputs of the wrong length whatever state the message object is in (a digest left from an earlier message)
+	c18ParsersAssign(c, r, "C18.R9")
 }
 
 // c18Header evaluates MessageHeader.FromBytes/ToBytes for all 256 byte values.
